@@ -637,11 +637,18 @@ class SqlImpl(TableImpl):
             for uid in left_select:
                 dtype = types.without_const(union_cache.cols[uid].dtype())
                 left_type = sqa_expr[uid].type
-                if (isinstance(left_type, sqa.types.NullType) and dtype != NullType()) or (
-                    isinstance(left_type, sqa.types.Integer) and dtype.is_float()
-                ):
+                if isinstance(left_type, sqa.types.NullType) and dtype != NullType():
                     sqa_expr[uid] = sqa.label(
                         sqa_expr[uid].name, sqa.type_coerce(table.columns[sqa_expr[uid].name], cls.sqa_type(dtype))
+                    )
+                elif isinstance(left_type, sqa.types.Integer) and dtype.is_float():
+                    # (a real cast: on SQLite the integers of the left operand stay integers)
+                    sqa_expr[uid] = sqa.label(
+                        sqa_expr[uid].name,
+                        sqa.cast(
+                            table.columns[sqa_expr[uid].name],
+                            cls.sqa_type(Float64() if type(dtype) is Float else dtype),
+                        ),
                     )
 
             # Create a new query with the union result
